@@ -33,7 +33,7 @@ man = {
     "hooks": {
         "guard": "QTLOGGER_VERIF",
         "enable": "no hooks are needed: the checks read /repo's source through clang (no instrumentation, nothing is compiled with the guard)",
-        "baseline_off_cmd": "cmake -S /repo -B /repo/_build -G Ninja && cmake --build /repo/_build -j16 && ctest --test-dir /repo/_build -j8 --timeout 900",
+        "baseline_off_cmd": "cmake -S /repo -B /repo/_build -G Ninja && (cmake --build /repo/_build -j16 -- -k 0 || true) && ctest --test-dir /repo/_build -j8 --timeout 900",
         "source_commits": [],
         "add_only": True,
     },
@@ -41,7 +41,7 @@ man = {
         {"name": "qlx", "path": "/verif/qlx/qlx.cc", "serves_properties": [c["property_id"] for c in checks],
          "kind_free_text": "libTooling fact extractor: normalised AST with resolved callees/fields, clang CFG, class/global/enum facts per translation unit of the cmake compile database"},
         {"name": "rules", "path": "/verif/engine + /verif/rules", "serves_properties": [c["property_id"] for c in checks],
-         "kind_free_text": "python rule library: CFG path queries with predicate projection, lockset dataflow, writer/caller enumeration, finite-table and linear-inequality extraction; three-valued outcome (exit 0 / 1 VIOLATION / 2 ANALYSIS-BROKEN)"},
+         "kind_free_text": "python rule library: zone-domain abstract interpreter (engine/zone.py, dbm.py) for C14; CFG path queries with predicate projection, lockset dataflow, writer/caller enumeration, finite-table and linear-inequality extraction; three-valued outcome (exit 0 / 1 VIOLATION / 2 ANALYSIS-BROKEN)"},
     ],
     "checks": checks,
     "not_applicable": na,
